@@ -20,6 +20,25 @@ THR, QUARTER = 0.333, 0.25  # constants of the property statement (tail rule of 
 # ------------------------------------------------------------------------------------------------------------------
 # the property restated (independent of the model and of xarray)
 # ------------------------------------------------------------------------------------------------------------------
+
+def _with_history(obj, da):
+    """one object in three has a history (gen.primed): the same Python object held other axes / other energy when its accessor
+    first served a statistic and was edited in place into what it holds now; regridding must see the current contents"""
+    import zlib
+
+    import xarray as xr
+
+    hsh = zlib.crc32(np.ascontiguousarray(da.values).tobytes())
+    if hsh % 3 != 0:
+        return obj
+
+    def prime(o):
+        o.spec.hs()
+        o.spec.tm01()
+        o.spec.oned()
+
+    return gen.primed(obj, prime, variant=(hsh // 3) % 3 if isinstance(obj, xr.Dataset) else 0)
+
 def hs_np(freq, dirs, E):
     """Significant height of one spectrum on its own grid: 4·sqrt(Σ_i Δf_i·Δθ·Σ_j E_ij [+ tail])."""
     f = np.asarray(freq, dtype=float)
@@ -307,6 +326,7 @@ def make_case(args):
             rec.update(angle=float(ang), akind=akind, tf=None, td=np.array(d, dtype=float), tfkind="none", tdkind="rotate")
             obj = da.to_dataset(name="efth") if rng.random() < 0.2 else da
             rec["container"] = type(obj).__name__
+            obj = _with_history(obj, da)
             out_s = obj.spec.rotate(ang)
             rel = da.assign_coords(dir=(da.dir.values + ang) % 360)
             out_u = regrid_spec(rel, dir=da.dir, maintain_m0=False)  # the unscaled intermediate, for the model comparison only
@@ -359,6 +379,7 @@ def make_case(args):
                 call = lambda m: regrid_spec(obj, freq=arg(tf, "freq"), dir=arg(td, "dir"), maintain_m0=m)
             rec["container"] = type(obj).__name__
             rec["wrap"] = wrap
+            obj = _with_history(obj, da)
             out_u = call(False)
             out_s = call(True)
             if extra_vars:
